@@ -44,7 +44,7 @@ SetCfg(c) ==
   /\ notif' = [t \in T |-> FALSE] /\ nChanges' = 0
   /\ nStart' = [t \in T |-> 0] /\ nSkip' = [t \in T |-> 0]
   /\ ready' = [t \in T |-> FALSE] /\ failed' = [t \in T |-> FALSE]
-  /\ word' = ZeroWord /\ proc' = [t \in T |-> 0] /\ viol' = {}
+  /\ word' = ZeroWord /\ proc' = [t \in T |-> 0] /\ viol' = {} /\ stale' = [t \in T |-> {}]
 
 TraceInit ==
   /\ l = 1
@@ -61,7 +61,7 @@ TraceInit ==
   /\ notif = [t \in T |-> FALSE] /\ nChanges = 0
   /\ nStart = [t \in T |-> 0] /\ nSkip = [t \in T |-> 0]
   /\ ready = [t \in T |-> FALSE] /\ failed = [t \in T |-> FALSE]
-  /\ word = ZeroWord /\ proc = [t \in T |-> 0] /\ viol = {}
+  /\ word = ZeroWord /\ proc = [t \in T |-> 0] /\ viol = {} /\ stale = [t \in T |-> {}]
 
 \* the logged actor snapshot (the helper's five fields + actor specifics) against the specification's local state
 PostOK(t, p) ==
